@@ -6,8 +6,10 @@ use serde_json::{json, Value};
 use std::io::Read;
 
 mod c01;
+mod c03;
 mod c04;
 mod c05;
+mod c09;
 mod c12;
 mod c16;
 mod c17;
@@ -41,11 +43,17 @@ fn main() {
         "c17_parse" => c17::parse(&v),
         "c17_remap" => c17::remap(&v),
         "c01_added_lines" => c01::added_lines(&v),
+        "c03_checkout_paths" => c03::checkout_paths(&v),
+        "c03_reset" => c03::reset(&v),
         "c04_split" => c04::split(&v),
         "c05_ranges" => c05::ranges(&v),
         "c05_upsert" => c05::upsert(&v),
         "c05_state" => c05::state(&v),
         "c05_compress" => c05::compress(&v),
+        "c09_lookup" => c09::lookup(&v),
+        "c09_overlay" => c09::overlay(&v),
+        "c09_blame" => c09::blame(&v),
+        "c09_note_text" => c09::note_text(&v),
         "c12_profile" => c12::profile(&v),
         "c16_tokenize" => c16::tokenize(&v),
         "c16_lines" => c16::lines(&v),
